@@ -667,8 +667,16 @@ func (c *Ctx) Sub() *Ctx {
 // ImportFrom copies the obligations of sub whose rule is renamed by the mapping (rule -> new rule name); obligations of
 // other rules, instance-count rows and floors of sub are dropped. Unresolved anchors of the imported rules are kept.
 func (c *Ctx) ImportFrom(sub *Ctx, rename map[string]string) int {
+	return c.ImportFromIf(sub, rename, nil)
+}
+
+// ImportFromIf is ImportFrom restricted to the obligations accepted by keep (nil = all).
+func (c *Ctx) ImportFromIf(sub *Ctx, rename map[string]string, keep func(o *Obligation) bool) int {
 	n := 0
 	for _, o := range sub.obs {
+		if keep != nil && !keep(o) {
+			continue
+		}
 		nr, ok := rename[o.Rule]
 		if !ok {
 			if o.Rule == "anchor-unresolved" {
